@@ -6,6 +6,7 @@ package c01
 
 import (
 	"fmt"
+	"strings"
 
 	"verif/engine/explore"
 	"verif/engine/runner"
@@ -25,7 +26,7 @@ func init() {
 			"the in-memory stream network delivers bytes reliably and in order (TCP semantics); chunking is any split of the byte stream",
 			"payload contents are position-coded, not arbitrary; sizes come from the stated alphabet",
 		},
-		Units:          units,
+		Units:          Units("C01", nil, ""),
 		QuickBudget:    70,
 		ThoroughBudget: 900,
 	})
@@ -35,7 +36,27 @@ func init() {
 
 var seqs = [][]int{{1}, {0, 1}, {1024}, {1025}, {1014}, {1015}, {32764}, {32765}, {32768, 1}, {32769}, {70000}, {1, 32768, 1025}}
 
-func units(tier string) []runner.Unit {
+// Units builds the TCP scenario list; C09 / C16 run subsets of it with wire monitors
+// (only = comma-separated unit-name prefixes, empty = all).
+func Units(prop string, mon Monitor, only string) func(tier string) []runner.Unit {
+	return func(tier string) []runner.Unit {
+		var out []runner.Unit
+		for _, u := range units(tier, prop, mon) {
+			if only == "" {
+				out = append(out, u)
+				continue
+			}
+			for _, pre := range strings.Split(only, ",") {
+				if strings.HasPrefix(u.Name, pre) {
+					out = append(out, u)
+				}
+			}
+		}
+		return out
+	}
+}
+
+func units(tier string, prop string, mon Monitor) []runner.Unit {
 	pats := Patterns(tier)
 	var us []runner.Unit
 	// (1) pattern pairs x rotating sizes, default schedule
@@ -43,7 +64,7 @@ func units(tier string) []runner.Unit {
 		i := 0
 		for _, a := range pats {
 			for _, b := range pats {
-				p := Params{Prop: "C01", CW: seqs[i%len(seqs)], SW: seqs[(i/len(seqs)+i)%len(seqs)], RB: []int{7, 4096, 65536}[i%3], CTP: a.Name, STP: b.Name, NoWait: i%2 == 1, NSess: 1 + i%2, Seed: int64(i)}
+				p := Params{Prop: prop, CW: seqs[i%len(seqs)], SW: seqs[(i/len(seqs)+i)%len(seqs)], RB: []int{7, 4096, 65536}[i%3], CTP: a.Name, STP: b.Name, NoWait: i%2 == 1, NSess: 1 + i%2, Seed: int64(i)}
 				if p.RB == 7 && Sum(p.CW)+Sum(p.SW) > 40000 {
 					p.RB = 4096
 				}
@@ -51,7 +72,7 @@ func units(tier string) []runner.Unit {
 				if tier == "quick" && len(pats) > 12 && i%7 != 0 {
 					continue
 				}
-				RunOne(u, p, pats, explore.Bound{}, nil)
+				RunOne(u, p, pats, explore.Bound{}, mon)
 				if u.Expired() {
 					u.NotExhaustive("budget")
 					return
@@ -65,12 +86,12 @@ func units(tier string) []runner.Unit {
 		for _, a := range seqs {
 			for _, b := range seqs {
 				for _, nw := range []bool{false, true} {
-					p := Params{Prop: "C01", CW: a, SW: b, RB: []int{4096, 65536, 7}[i%3], CTP: pats[i%12].Name, STP: pats[(i/12+i)%12].Name, NoWait: nw, NSess: 1, Seed: int64(1000 + i)}
+					p := Params{Prop: prop, CW: a, SW: b, RB: []int{4096, 65536, 7}[i%3], CTP: pats[i%12].Name, STP: pats[(i/12+i)%12].Name, NoWait: nw, NSess: 1, Seed: int64(1000 + i)}
 					if p.RB == 7 && Sum(p.CW)+Sum(p.SW) > 40000 {
 						p.RB = 4096
 					}
 					i++
-					RunOne(u, p, pats, explore.Bound{}, nil)
+					RunOne(u, p, pats, explore.Bound{}, mon)
 					if u.Expired() {
 						u.NotExhaustive("budget")
 						return
@@ -88,13 +109,13 @@ func units(tier string) []runner.Unit {
 	for bi, base := range chunkBases {
 		base := base
 		base.Seed = int64(2000 + bi)
-		base.Prop = "C01"
+		base.Prop = prop
 		us = append(us, runner.Unit{Name: fmt.Sprintf("chunking-%d", bi), Cost: 5, Run: func(u *runner.U) {
 			p := base
 			p.MaxRead = 1
-			RunOne(u, p, pats, explore.Bound{}, nil)
+			RunOne(u, p, pats, explore.Bound{}, mon)
 			p.MaxRead = 3
-			RunOne(u, p, pats, explore.Bound{}, nil)
+			RunOne(u, p, pats, explore.Bound{}, mon)
 			// measure stream lengths on the default execution
 			_, ex := Exec(base, pats, explore.NewCtl(nil), nil)
 			var lc, ls int
@@ -112,7 +133,7 @@ func units(tier string) []runner.Unit {
 			for off := 1; off < lc && off <= limit; off++ {
 				p := base
 				p.SplitC = []int64{int64(off)}
-				RunOne(u, p, pats, explore.Bound{}, nil)
+				RunOne(u, p, pats, explore.Bound{}, mon)
 				if u.Expired() {
 					u.NotExhaustive("budget")
 					return
@@ -121,7 +142,7 @@ func units(tier string) []runner.Unit {
 			for off := 1; off < ls && off <= limit; off++ {
 				p := base
 				p.SplitS = []int64{int64(off)}
-				RunOne(u, p, pats, explore.Bound{}, nil)
+				RunOne(u, p, pats, explore.Bound{}, mon)
 				if u.Expired() {
 					u.NotExhaustive("budget")
 					return
@@ -135,7 +156,7 @@ func units(tier string) []runner.Unit {
 					for b := a + 1; b < 120 && b < lc; b++ {
 						p := base
 						p.SplitC = []int64{int64(a), int64(b)}
-						RunOne(u, p, pats, explore.Bound{}, nil)
+						RunOne(u, p, pats, explore.Bound{}, mon)
 					}
 					if u.Expired() {
 						u.NotExhaustive("budget")
@@ -155,13 +176,13 @@ func units(tier string) []runner.Unit {
 	for bi, base := range schedBases {
 		base := base
 		base.Seed = int64(3000 + bi)
-		base.Prop = "C01"
+		base.Prop = prop
 		ds := 1
 		if tier == "thorough" && bi < 2 {
 			ds = 2
 		}
 		us = append(us, runner.Unit{Name: fmt.Sprintf("schedules-%d", bi), Split: true, Run: func(u *runner.U) {
-			RunOne(u, base, pats, explore.Bound{Ds: ds}, nil)
+			RunOne(u, base, pats, explore.Bound{Ds: ds}, mon)
 		}})
 	}
 	return us
